@@ -19,13 +19,16 @@ for f in sorted(glob.glob(os.path.join(VERIF, "seeded", "*", "meta.json"))):
     nblind += 1 if sm.get("blind") else 0
     rows.append("| %s | %s | %s | %s | %s | %s |" % (m["seed"], sm.get("what", ""), sm.get("needs", ""), "yes" if m.get("confirmed") else "NO", caught + (" - " + how if how else ""), blind))
 block = ["### 5.5 Seeded changes (written by sub-agents that saw only the property text; confirmed, then run against the checks)", "",
-         "Two rounds of 20 (round 2, `CNNb`, was told the one-line description of the round-1 change and asked for a different mechanism). Each change",
+         "Three rounds of 20 (rounds 2 and 3, `CNNb` / `CNNc`, were told the one-line descriptions of the earlier changes and asked for a different",
+         "mechanism; round 3 had to change the root module only wherever the property names both generations). Each change",
          "compiles, passes the repository's own suite, and comes with a demonstration that fails with the change and passes without it",
          "(`seeded/<id>/`: patch.diff, demonstration, notes.md, meta.json with the commands and what every check printed). All %d are confirmed and" % len(rows),
          "caught by the quick tier of their property's check; %d were caught by the checks as they stood when the change arrived, the others only after the" % nblind,
          "check was strengthened (last column; a check was never loosened). The misses had two causes: a shape, sequence or configuration the generators did not",
-         "reach (sibling includes, overlapping requests, filters, deep trees, encode-while-filling, failing marshal first, second request, colliding unrequested",
-         "key, only-generated output directory, rich default literals), and once the driver (a crash in every shard was reported as inconclusive).", "",
+         "reach (sibling includes, overlapping requests, filters, deep trees and deep values, encode-while-filling, a failing marshal or response first, a second",
+         "request, colliding unrequested key, only-generated output directory, user directory at a generated path, rich default literals, annotations, short",
+         "network reads, lenient client, key order on the wire), and twice the driver (a crash in every shard, and a job that cannot drive channel operations,",
+         "were reported as inconclusive instead of letting the other jobs decide).", "",
          "| seed | change | needs, to manifest | confirmed | caught by (quick tier) | caught |", "|---|---|---|---|---|---|"] + rows + [""]
 p = os.path.join(VERIF, "DESIGN.md")
 s = open(p).read()
